@@ -27,26 +27,35 @@ Section Dispatch.
     e_ser : serializer
   }.
 
-  (* client.resolveSerializer for a non-nil message *)
-  Fixpoint resolve (es : list entry) (m : Msg) : option serializer :=
+  (* client.resolveSerializer for a non-nil message: the first entry registered for exactly the
+     message's concrete type; failing that, the first registered interface the message implements *)
+  Definition exact_match (m : Msg) (e : entry) : bool := negb (is_iface e) && matches e m.
+  Definition iface_match (m : Msg) (e : entry) : bool := is_iface e && matches e m.
+  Definition resolve_entry (es : list entry) (m : Msg) : option entry :=
+    match find (exact_match m) es with
+    | Some e => Some e
+    | None => find (iface_match m) es
+    end.
+  Definition resolve (es : list entry) (m : Msg) : option serializer := option_map e_ser (resolve_entry es m).
+
+  (* position of the first entry satisfying p (used to compare with the real code) *)
+  Fixpoint find_idx (p : entry -> bool) (es : list entry) : option nat :=
     match es with
     | [] => None
-    | e :: r => if matches e m then Some (e_ser e) else resolve r m
+    | e :: r => if p e then Some O else option_map S (find_idx p r)
+    end.
+  Definition resolve_idx (es : list entry) (m : Msg) : option nat :=
+    match find_idx (exact_match m) es with
+    | Some i => Some i
+    | None => find_idx (iface_match m) es
     end.
 
-  (* the same, returning the position of the chosen entry (used to compare with the real code) *)
-  Fixpoint resolve_idx (es : list entry) (m : Msg) : option nat :=
+  (* the behaviour before the repair of resolveSerializer (commit "resolveSerializer prefers the exact
+     concrete type"): first matching entry in registration order, whatever its kind *)
+  Fixpoint resolve_first_match (es : list entry) (m : Msg) : option serializer :=
     match es with
     | [] => None
-    | e :: r => if matches e m then Some O else option_map S (resolve_idx r m)
-    end.
-
-  (* what the documentation of WithClientSerializers promises instead: exact concrete type first,
-     then the first interface entry *)
-  Definition resolve_documented (es : list entry) (m : Msg) : option serializer :=
-    match resolve (filter (fun e => negb (is_iface e)) es) m with
-    | Some s => Some s
-    | None => resolve (filter is_iface es) m
+    | e :: r => if matches e m then Some (e_ser e) else resolve_first_match r m
     end.
 
   (* serializerDispatch.Serialize *)
